@@ -71,6 +71,29 @@ def rand_default_shifts(rng, axes):
     return {"k": "m", "v": pairs} if pairs else NONE
 
 
+def sprinkle_nan(rng, data, facedim=None):
+    """missing values among the data (the records carry them as the distinguished integer NAN_INT): a few cells, or -
+    with a face dimension - every cell of one face (a blank tile)"""
+    from .model import NAN_INT
+
+    flat, shape, dims = data["flat"], data["shape"], data["dims"]
+    if not flat:
+        return data
+    if facedim in dims and rng.random() < 0.4:
+        k = dims.index(facedim)
+        f = rng.randrange(shape[k])
+        stride = 1
+        for s in shape[k + 1:]:
+            stride *= s
+        for i in range(len(flat)):
+            if (i // stride) % shape[k] == f:
+                flat[i] = NAN_INT
+    else:
+        for _ in range(rng.randint(1, max(1, len(flat) // 6))):
+            flat[rng.randrange(len(flat))] = NAN_INT
+    return data
+
+
 def rand_data(rng, dims_shape, lo=-9, hi=9):
     dims = [d for d, _ in dims_shape]
     shape = [s for _, s in dims_shape]
